@@ -110,10 +110,60 @@ def _tla_prog(prog) -> str:
     return "<<" + ", ".join(items) + ">>"
 
 
+def _symshape_job(cases):
+    from harness.symshapejobs import run_cases
+
+    return run_cases(cases)
+
+
+def symshape_replay(ctx: Ctx) -> None:
+    """J2O_SymShape: laws of the shape algebra by TLC; every emitted case exported with symbols and run at every listed binding."""
+    from harness.common import parse_tlc_values
+
+    r = run_tlc("MC_SymShape", "MC_SymShape.cfg", timeout=900, workers=4)
+    tlc_must_pass(r, "J2O_SymShape")
+    ctx.add_tlc(r, "J2O_SymShape (ElementsPreserved, RankIndependentOfBinding, TileLaw, GrowLaw, AxisSpellings)")
+    if r.violated:
+        raise MachineryError(f"J2O_SymShape: {r.violated} violated")
+    cleanup_tlc(r)
+    for dev, inv in (("squeeze_all_ones", "RankIndependentOfBinding"), ("tile_positional", "TileLaw")):
+        rd = run_tlc("MC_SymShape", f"MC_SymShapeDev_{dev}.cfg", timeout=600, workers=2, coverage=False)
+        if rd.violated != inv:
+            raise MachineryError(f"J2O_SymShape deviation {dev} should violate {inv} (non-vacuity), got {rd.violated!r}")
+        cleanup_tlc(rd)
+    re_ = run_tlc("MC_SymShape", "MC_SymShapeEmit.cfg", timeout=600, workers=1, coverage=False)
+    cases = parse_tlc_values(re_.output.splitlines())
+    cleanup_tlc(re_)
+    if len(cases) < 60:
+        raise MachineryError("J2O_SymShape emitted too few cases: " + re_.output[-400:])
+    n = 6
+    res = run_tasks([{"fn": "harness.checks.c04:_symshape_job", "args": {"cases": cases[i::n]}, "timeout": 1800} for i in range(n)], nworkers=n, timeout=1800)
+    total = 0
+    for task, out in res:
+        if out.get("status") != "ok":
+            raise MachineryError(f"symshape worker failed: {str(out)[:600]}")
+        pr = out["result"]
+        if pr["spec_vs_jax"]:
+            raise MachineryError("J2O_SymShape disagrees with JAX eager (specification bug): " + json.dumps(pr["spec_vs_jax"][:2])[:600])
+        total += pr["n"]
+        for c_ in task["args"]["cases"]:
+            ctx.count(("symshape", json.dumps(c_["c"], sort_keys=True)), nontrivial=True, n=len(c_["shapes"]))
+        for ef in pr["export_failed"]:
+            ctx.extra.setdefault("symshape_refused_loudly", []).append({"case": ef["case"], "error": ef["error"][:140]})
+        for pb in pr["problems"]:
+            c_ = pb["case"]
+            ctx.violation({"engine": "symshape", "op": c_["op"], "insh": c_["insh"], "a": c_["a"], "r": c_["r"], "what": pb["what"], "B": pb["bind"]["B"], "N": pb["bind"]["N"]},
+                          f"{c_['op']} (input {c_['insh']}, axes {c_['a']}, dims {c_['r']}; -1 = B, -2 = N, -3 = B*N, -9 = inferred) at binding B={pb['bind']['B']} N={pb['bind']['N']}: {pb['what']}: {pb['detail'][:200]}", pb)
+    ctx.extra["symshape_cases"] = len(cases)
+    ctx.extra["symshape_bindings_run"] = total
+    ctx.sample({"kind": "symshape", "case": cases[0]["c"], "predicted_shapes": cases[0]["shapes"][:3]})
+
+
 def run(ctx: Ctx) -> None:
     from harness.dimjobs import enumerate_asts
 
     rng = random.Random(ctx.seed)
+    symshape_replay(ctx)
     t_phase = time.time()
     asts = enumerate_asts(ctx.tier, rng)
     ctx.extra["expressions_enumerated"] = len(asts)
